@@ -270,7 +270,22 @@ class C05:
         want = ("attr", ("call", ("global", f"{CONV}:geometry_to_shapely", "func"), (g,), ()), "bounds")
         site = f"{s.module.relpath}:{s.node.lineno} compute_bounds"
         spelled_out = ("tuple", tuple(("sub", want, ("const", i)) for i in range(4)))  # the four bounds, in shapely's order
-        if len(s.returns) == 1 and s.returns[0].term in (want, spelled_out):
+        def plain(t):
+            """tuple(x) and tuple(Rec._make(x)) of the 4-tuple of bounds are that tuple (Rec a NamedTuple record of four fields)"""
+            for _ in range(4):
+                if t[0] == "call" and t[1] in (("builtin", "tuple"),) and len(t[2]) == 1 and not t[3]:
+                    t = t[2][0]
+                elif t[0] == "call" and t[1][0] == "attr" and t[1][2] == "_make" and t[1][1][0] == "global" and t[1][1][2] == "class" and len(t[2]) == 1 and not t[3]:
+                    ci_ = ctx.index.class_by_qual(t[1][1][1])
+                    nf_ = len([st for st in ci_.node.body if isinstance(st, ast.AnnAssign)]) if ci_ is not None else 0
+                    if ci_ is None or nf_ != 4 or not any(str(b).split(".")[-1] == "NamedTuple" for b in ci_.ext_bases):
+                        break
+                    t = t[2][0]
+                else:
+                    break
+            return t
+
+        if len(s.returns) == 1 and plain(s.returns[0].term) in (want, spelled_out):
             ctx.ok("R05.3", site, "returns geometry_to_shapely(geometry).bounds unmodified")
             if not full:
                 return
